@@ -12,7 +12,7 @@ of the frame operations (Sample/SampleOps.v, Frame/FrameOps.v) as the element-wi
 the fallible loops of Frame/SliceFallible.v): every special-cased gain (0, -0, 1, -1, 0.5, 2, 1 +- ulp) on all
 channels and mixed per channel x boundary-structured and off-float-grid samples, in the dev build (Checked model),
 the release build (Wrapping model) and relchk.  `I` cases: the identity impls and the free-function boxed forms."""
-import json, os, struct
+import json, os, struct, time
 import framework as F
 import floatbase
 
@@ -529,7 +529,16 @@ def correspond(binpath, items, tag, extra=()):
 
 def main(rep, tier, seed):
     rng = F.Rng(seed)
+    t0 = time.time()
+    times = {}
+
+    def lap(name):
+        nonlocal t0
+        times[name] = round(time.time() - t0, 1)
+        t0 = time.time()
+
     info = F.standard_proof_phase(rep, PROP)
+    lap("proof_phase")
     ok, blog, binpath = F.harness_build("c10")
     if not ok:
         rep.violation("harness_build", {"kind": "harness does not build against /repo", "log": blog[-4000:]}, no_input=True)
@@ -540,6 +549,7 @@ def main(rep, tier, seed):
     if fb_bad:
         rep.violation("floatbase", {"kind": "Base/Float.v disagrees with rustc on an IEEE operation (model base, not dasp)",
                                     "cases": fb_bad[:5]}, no_input=True)
+    lap("harness_build_and_floatbase")
     corpus = load_corpus()
     items, n_grid = gen_cases(rng, tier)
     w_items = gen_w_cases(rng.fork("wide"), tier)
@@ -580,7 +590,9 @@ def main(rep, tier, seed):
                 rel_src.append(j)
         return [(it, o_rel[j]) for it, j in zip(rel_items, rel_src)]
 
+    lap("generation_and_profile_builds")
     outl, bad_all, errors = correspond(binpath, items, "c10", extra=release_twins)
+    lap("dev_and_release_runs_and_coqc_batch")
     bad = [i for i in bad_all if i < len(items)]
     bad_rel = [i - len(items) for i in bad_all if i >= len(items)]
     wstats["release_cases"] = len(outl_rel)
@@ -641,6 +653,7 @@ def main(rep, tier, seed):
     for name, msg in errors:
         rep.violation("correspondence_error_" + name.replace("/", "_"),
                       {"kind": "correspondence could not be evaluated", "where": name, "log": msg}, no_input=True)
+    lap("profile_diffs")
     hist = {"kind": {}, "format": {}, "N": {}, "divisible": {"yes": 0, "no": 0}, "op": {}, "pair": {"equal": 0, "mismatched": 0},
             "stores_through_views": 0, "index_panics_through_views": 0, "assert_panics": 0, "boxed_failures_freed": 0,
             "wide": {"unity_gain_all_channels_x_wide_format_x_off_grid_source": 0, "dev_overflow_panics_inside_the_frame_operation": 0}}
@@ -701,7 +714,7 @@ def main(rep, tier, seed):
     if bad_rel:
         report("release_case", bin_rel, rel_items, bad_rel, "release")
     dist = dict(hist, grid_and_long_cases=n_grid, op_cases=len(items) - n_grid - len(corpus) - len(w_items), wide_format_op_cases=len(w_items),
-                corpus_cases=len(corpus),
+                corpus_cases=len(corpus), timing_s=times,
                 floatbase_cases=fb_n, floatbase_disagreements=len(fb_bad))
     samples = [items[i]["line"][:300] for i in (len(corpus) + 9, len(corpus) + n_grid // 2, len(items) - 1) if i < len(items)]
     wi = [i for i in w_idx if w_offgrid_unity(items[i])]
